@@ -11,7 +11,8 @@ Line-protocol driver of C06 (`cola.linalg.inv` / `solve`).  One JSON case per in
    "x": rows of the right-hand side (n × k), "xl": rows of the left operand (k × n)}` →
   the CODE model (`Inv.invRule` instantiated with exact Gaussian-rational factorisations / solver):
   kind tree, shape, dtype, `to_dense`, `B @ x`, `xl @ B`, `B.T.to_dense()`, `solvers` = the solver objects inside
-  the result with their options (`InvOp.solvers`; `C06_solver_options`), and the SPEC (the exact
+  the result with their options (`InvOp.solvers`; `C06_solver_options`), `mm_clauses` / `dense_clauses` (the recorded GMRES
+  clauses that reach `B @ x` / `B.to_dense()`) and `mm_col_clauses` / `dense_col_clauses` (the same per column), and the SPEC (the exact
   inverse of `den A` by Gauss–Jordan elimination, checked by multiplication in the driver);
 * `{"id", "call":"auto", "psd": bool, "rows", "cols", "opts"}` → the Auto decision table: the selected algorithm
   and, for CG / GMRES, the options of the object `Auto(**opts)` builds (`autoChoice`);
@@ -23,7 +24,8 @@ Run with `lake env lean --run DriverC06.lean < cases.jsonl`.
 
 **What in this file has NO theorem behind it.**  `iterSees` / `kronSees` / `bdiagSees` / `denseSees` (which operand
 each `IterativeOperatorWInfo` node of the result receives while `B @ X` / `B.to_dense()` is evaluated),
-`zeroColumn` / `badZeroCol`, `gradeOf` (exact elimination: dimension of the Krylov space) and `badBreakdown` are
+`colSees` / `denseColSees` (the same question per column of the product: round 5, the harness excuses only the
+columns a clause is attributed to and compares the others), `zeroColumn` / `badZeroCol`, `gradeOf` (exact elimination: dimension of the Krylov space) and `badBreakdown` are
 EXECUTABLE DIAGNOSTICS.  They are `partial def`s / plain programs defined here, no theorem of `Properties/C06*`
 (or of C13 / C15) mentions them, and nothing is proved about them — in particular not that `iterSees` visits the
 operands the model `InvOp.mm` multiplies (it re-implements the member walk of `kronStepV` / the BlockDiag reshape),
@@ -218,6 +220,22 @@ partial def denseSees (bad : Op GRat → Alg → Nat → MatF GRat → Bool) : I
   | .bdiag Ms _ => Ms.any (denseSees bad)
   | B => iterSees bad B B.cols eyeM
 
+/-- PER-COLUMN attribution for `B @ X`: every kind acts column by column (column `j` of the product is computed
+from column `j` of `X` alone, and the operand columns a nested node receives for the batch index `j` are the same
+whether `X` is passed whole or column `j` alone: the batch axis stays the last axis of every reshape), so the
+predicate is evaluated on the one-column operand `X[:, j]`.  Like `iterSees`: a diagnostic, no theorem. -/
+def colSees (bad : Op GRat → Alg → Nat → MatF GRat → Bool) (B : InvOp GRat) (k : Nat) (X : MatF GRat) : List Bool :=
+  (List.range k).map fun j => iterSees bad B 1 (forceV B.cols 1 (fun i _ => X i j)).f
+
+/-- the same for the columns of `B.to_dense()`: `Kronecker` densifies member by member (column `(j₁, j₂, …)` is the
+Kronecker product of the members' columns `j₁, j₂, …`), `BlockDiag` places the members' dense blocks (each `mult`
+times), every other kind multiplies the identity -/
+partial def denseColSees (bad : Op GRat → Alg → Nat → MatF GRat → Bool) : InvOp GRat → List Bool
+  | .op A => List.replicate A.cols false
+  | .kron Ms => Ms.foldl (fun acc M => acc.flatMap fun a => (denseColSees bad M).map (a || ·)) [false]
+  | .bdiag Ms mults => (Ms.zip mults).flatMap fun p => (List.replicate p.2 (denseColSees bad p.1)).flatten
+  | B => colSees bad B B.cols eyeM
+
 def zeroColumn (n b : Nat) (X : MatF GRat) : Bool :=
   (List.range b).any fun j => (List.range n).all fun i => X i j == 0
 
@@ -252,6 +270,11 @@ def badBreakdown (A : Op GRat) (alg : Alg) (b : Nat) (X : MatF GRat) : Bool :=
     !((List.range A.cols).all fun i => X i j == 0) && gradeOf A.cols A.den.f (fun i => X i j) < A.cols
 
 /-! ## output -/
+
+/-- clause lists per column: `[["gmres-zero-rhs-column"],[],…]` -/
+def showColClauses (zs bs : List Bool) : String :=
+  "[" ++ ",".intercalate ((zs.zip bs).map fun p =>
+    showStrs ((if p.1 then ["gmres-zero-rhs-column"] else []) ++ (if p.2 then ["gmres-krylov-breakdown"] else []))) ++ "]"
 
 def invKind : InvOp GRat → String
   | .op _ => "op" | .triInv .. => "triinv" | .iterInv _ alg => "iter:" ++ alg.toString
@@ -360,6 +383,6 @@ def handle (j : Json) : E String := do
       (if denseSees badBreakdown B then ["gmres-krylov-breakdown"] else [])
     let left := if direct then
         s!",\"rmm\":{showMat kl n (B.rmm EX kl XL).f},\"T\":{showMat n n (B.tdT EX).f}" else ""
-    pure ("{" ++ pre ++ s!",\"code\":\{\"rows\":{B.rows},\"cols\":{B.cols},\"dtype\":\"{B.dtype.toString}\",\"skel\":{invSkel B},\"solvers\":{showSolvers B},\"direct\":{direct},\"inv_ok\":{invOk},\"contracts_ok\":{atAlgNodes (nodeContractOk alg) alg A A},\"lapack_agree\":{atAlgNodes (nodeAgree alg) alg A A},\"res_clauses\":{showStrs (if B.scalarTimesAnn then ["scalar-times-annotated"] else [])},\"mm_clauses\":{showStrs cl},\"dense_clauses\":{showStrs dcl},\"dense\":{showMat n n (B.td EX).f},\"den\":{showMat n n dn},\"mm\":{showMat n k (B.mm EX k X).f}{left}}," ++ specS ++ "}")
+    pure ("{" ++ pre ++ s!",\"code\":\{\"rows\":{B.rows},\"cols\":{B.cols},\"dtype\":\"{B.dtype.toString}\",\"skel\":{invSkel B},\"solvers\":{showSolvers B},\"direct\":{direct},\"inv_ok\":{invOk},\"contracts_ok\":{atAlgNodes (nodeContractOk alg) alg A A},\"lapack_agree\":{atAlgNodes (nodeAgree alg) alg A A},\"res_clauses\":{showStrs (if B.scalarTimesAnn then ["scalar-times-annotated"] else [])},\"mm_clauses\":{showStrs cl},\"dense_clauses\":{showStrs dcl},\"mm_col_clauses\":{showColClauses (colSees badZeroCol B k X) (colSees badBreakdown B k X)},\"dense_col_clauses\":{showColClauses (denseColSees badZeroCol B) (denseColSees badBreakdown B)},\"dense\":{showMat n n (B.td EX).f},\"den\":{showMat n n dn},\"mm\":{showMat n k (B.mm EX k X).f}{left}}," ++ specS ++ "}")
 
 def main : IO Unit := driverMain handle
